@@ -7,23 +7,25 @@ import TinsModel.Tcp.Spec
 -/
 namespace Tins.DT
 
-theorem adrain_none (fuel : Nat) (t : ATracker) (added : Bool) : adrain fuel t none added = (t, added) := by
+variable {tie : Bool}
+
+theorem adrain_none (fuel : Nat) (t : ATracker) (added : Bool) : adrain tie fuel t none added = (t, added) := by
   cases fuel <;> rfl
 
 theorem adrain_succ (fuel : Nat) (t : ATracker) (a : Nat) (added : Bool) :
-    adrain (fuel + 1) t (some a) added =
+    adrain tie (fuel + 1) t (some a) added =
       match lookup t.buf a with
       | none => (t, added)
       | some chunk =>
         if a ≤ t.k then
           if a < t.k then
             if t.k < a + chunk.length then
-              adrain fuel { t with buf := erase (astore t.buf t.k (chunk.drop (t.k - a))) a }
-                (minKey? (keys (erase (astore t.buf t.k (chunk.drop (t.k - a))) a))) added
+              adrain tie fuel { t with buf := erase (astore tie t.buf t.k (chunk.drop (t.k - a))) a }
+                (minKey? (keys (erase (astore tie t.buf t.k (chunk.drop (t.k - a))) a))) added
             else
-              adrain fuel { t with buf := erase t.buf a } (minKey? (keys (erase t.buf a))) added
+              adrain tie fuel { t with buf := erase t.buf a } (minKey? (keys (erase t.buf a))) added
           else
-            adrain fuel { k := t.k + chunk.length, payload := t.payload ++ chunk, buf := erase t.buf a }
+            adrain tie fuel { k := t.k + chunk.length, payload := t.payload ++ chunk, buf := erase t.buf a }
               (minKey? (keys (erase t.buf a))) true
         else (t, added) := by
   rfl
@@ -47,7 +49,7 @@ theorem le_mu (t : ATracker) : 2 * t.buf.length ≤ mu t := by
     remaining chunk strictly above the delivery point. -/
 theorem adrain_AInv {s : Bytes} {cov : Nat → Prop} (fuel : Nat) (t : ATracker) (iter : Option Nat) (added : Bool)
     (h : DInv s cov t) (hi : IterOK t iter) (hf : mu t < fuel) :
-    AInv s cov (adrain fuel t iter added).1 := by
+    AInv s cov (adrain tie fuel t iter added).1 := by
   induction fuel generalizing t iter added with
   | zero => omega
   | succ fuel ih =>
@@ -67,13 +69,13 @@ theorem adrain_AInv {s : Bytes} {cov : Nat → Prop} (fuel : Nat) (t : ATracker)
             split
             · next hend =>
               refine ih _ _ _ (DInv_slice h hl hlt hend) (IterOK_min _) ?_
-              have hA := length_astore h.nodup t.k (chunk.drop (t.k - a))
-              have haA : a ∈ keys (astore t.buf t.k (chunk.drop (t.k - a))) := mem_keys_astore.mpr (Or.inr hmin.1)
+              have hA := length_astore (tie := tie) h.nodup t.k (chunk.drop (t.k - a))
+              have haA : a ∈ keys (astore tie t.buf t.k (chunk.drop (t.k - a))) := mem_keys_astore.mpr (Or.inr hmin.1)
               have hE := length_erase_eq (nodup_astore h.nodup _ _) haA
-              have hK : t.k ∈ keys (erase (astore t.buf t.k (chunk.drop (t.k - a))) a) :=
+              have hK : t.k ∈ keys (erase (astore tie t.buf t.k (chunk.drop (t.k - a))) a) :=
                 mem_keys_erase.mpr ⟨mem_keys_astore.mpr (Or.inl rfl), by omega⟩
-              have hmu : mu { t with buf := erase (astore t.buf t.k (chunk.drop (t.k - a))) a }
-                  = 2 * (erase (astore t.buf t.k (chunk.drop (t.k - a))) a).length := by
+              have hmu : mu { t with buf := erase (astore tie t.buf t.k (chunk.drop (t.k - a))) a }
+                  = 2 * (erase (astore tie t.buf t.k (chunk.drop (t.k - a))) a).length := by
                 unfold mu; simp only [hK, if_true]; omega
               rw [hmu]
               unfold mu at hf
@@ -135,9 +137,9 @@ theorem astored_DInv {s : Bytes} {cov : Nat → Prop} {t : ATracker} (h : AInv s
     (hin : off + (data.length : Int) ≤ (s.length : Int)) (hag : (SegD.mk off data).agrees s)
     (hnot : ¬ off + (data.length : Int) < (t.k : Int)) :
     DInv s (fun p => (off ≤ (p : Int) ∧ (p : Int) < off + (data.length : Int)) ∨ cov p)
-      { t with buf := astore t.buf (aStart t.k off) (aData t.k off data) } ∧
-    IterOK { t with buf := astore t.buf (aStart t.k off) (aData t.k off data) }
-      (if (lookup (astore t.buf (aStart t.k off) (aData t.k off data)) t.k).isSome then some t.k else none) := by
+      { t with buf := astore tie t.buf (aStart t.k off) (aData t.k off data) } ∧
+    IterOK { t with buf := astore tie t.buf (aStart t.k off) (aData t.k off data) }
+      (if (lookup (astore tie t.buf (aStart t.k off) (aData t.k off data)) t.k).isSome then some t.k else none) := by
   obtain ⟨hd, habove⟩ := h
   obtain ⟨hsum, hka, hoa, hmax, hsl⟩ := aData_ok hd.k_le hin hag hnot
   generalize aStart t.k off = a at *
@@ -148,7 +150,7 @@ theorem astored_DInv {s : Bytes} {cov : Nat → Prop} {t : ATracker} (h : AInv s
     unfold Covers at hp; simp only at hp
     exact Or.inl (by omega)
   have hd1 : DInv s (fun p => (off ≤ (p : Int) ∧ (p : Int) < off + (data.length : Int)) ∨ cov p)
-      { t with buf := astore t.buf a d } := by
+      { t with buf := astore tie t.buf a d } := by
     refine ⟨hd.k_le, hd.payload_eq, fun p hp => Or.inr (hd.below p hp), nodup_astore hd.nodup _ _, ?_, ?_⟩
     · intro c hc
       rcases mem_astore hc with hc | hc
@@ -166,7 +168,7 @@ theorem astored_DInv {s : Bytes} {cov : Nat → Prop} {t : ATracker} (h : AInv s
       · obtain ⟨c, hc1, hcp⟩ := hd.covers p hp hc
         obtain ⟨c', hc', _, hcp'⟩ := astore_covers_old hd.nodup a d hc1 hcp
         exact ⟨c', hc', hcp'⟩
-  have hkeys : ∀ c ∈ astore t.buf a d, t.k ≤ c.1 := by
+  have hkeys : ∀ c ∈ astore tie t.buf a d, t.k ≤ c.1 := by
     intro c hc
     rcases mem_astore hc with hc | hc
     · have := habove c hc; omega
@@ -175,7 +177,7 @@ theorem astored_DInv {s : Bytes} {cov : Nat → Prop} {t : ATracker} (h : AInv s
   split
   · next hsome =>
     have hm := lookup_isSome_iff.mp hsome
-    show minKey? (keys (astore t.buf a d)) = some t.k
+    show minKey? (keys (astore tie t.buf a d)) = some t.k
     refine minKey?_of_spec hm ?_
     intro x hx
     obtain ⟨dd, hdd⟩ := mem_keys.mp hx
@@ -193,7 +195,7 @@ theorem astored_DInv {s : Bytes} {cov : Nat → Prop} {t : ATracker} (h : AInv s
 /-- `process_payload` on the abstract tracker keeps the invariant when the arrived set grows by the segment -/
 theorem aprocess_AInv {s : Bytes} {cov : Nat → Prop} {t : ATracker} (h : AInv s cov t) (off : Int) (data : Bytes)
     (hin : off + (data.length : Int) ≤ (s.length : Int)) (hag : (SegD.mk off data).agrees s) :
-    AInv s (fun p => (off ≤ (p : Int) ∧ (p : Int) < off + (data.length : Int)) ∨ cov p) (aprocess t off data).1 := by
+    AInv s (fun p => (off ≤ (p : Int) ∧ (p : Int) < off + (data.length : Int)) ∨ cov p) (aprocess tie t off data).1 := by
   unfold aprocess
   split
   · next hlt =>
@@ -206,7 +208,7 @@ theorem aprocess_AInv {s : Bytes} {cov : Nat → Prop} {t : ATracker} (h : AInv 
   · next hnot =>
     obtain ⟨hd1, hi⟩ := astored_DInv h off data hin hag hnot
     refine adrain_AInv _ _ _ _ hd1 hi ?_
-    have := mu_le { t with buf := astore t.buf (aStart t.k off) (aData t.k off data) }
+    have := mu_le { t with buf := astore tie t.buf (aStart t.k off) (aData t.k off data) }
     simp only at this ⊢; omega
 
 /-! ### the delivery point is the frontier of the arrived set -/
@@ -249,9 +251,9 @@ theorem AInv_frontier {s : Bytes} {h : List Seg} {t : ATracker} (hinv : AInv s (
       unfold Covers at hcp; omega
 
 /-- the abstract tracker run over an arrival history (latest arrival first) -/
-def runAbstract : List SegD → ATracker
+def runAbstract (tie : Bool) : List SegD → ATracker
   | [] => ATracker.init
-  | g :: h => (aprocess (runAbstract h) g.off g.data).1
+  | g :: h => (aprocess tie (runAbstract tie h) g.off g.data).1
 
 theorem AInv_init (s : Bytes) : AInv s (fun p => covered [] p = true) ATracker.init := by
   refine ⟨⟨Nat.zero_le _, rfl, ?_, ?_, ?_, ?_⟩, ?_⟩
@@ -266,12 +268,12 @@ theorem AInv.congr {s : Bytes} {cov cov' : Nat → Prop} {t : ATracker} (h : AIn
   ⟨h.1.mono (fun p hp => (hiff p).mp hp) (fun p hp hc => h.1.covers p hp ((hiff p).mpr hc)), h.2⟩
 
 theorem runAbstract_AInv {s : Bytes} {h : List SegD} (hok : HistOK s h) :
-    AInv s (fun p => covered (h.map SegD.seg) p = true) (runAbstract h) := by
+    AInv s (fun p => covered (h.map SegD.seg) p = true) (runAbstract tie h) := by
   induction h with
   | nil => exact AInv_init s
   | cons g h ih =>
     obtain ⟨⟨_, hin, hag⟩, hrest⟩ := hok
-    have := aprocess_AInv (ih hrest) g.off g.data hin hag
+    have := aprocess_AInv (tie := tie) (ih hrest) g.off g.data hin hag
     refine this.congr ?_
     intro p
     simp [covered, SegD.seg]
